@@ -156,6 +156,7 @@ func H_C05(prodCfg, mode, capN, part, nparts int) {
 	ws.Path("/t")
 	ran := false
 	var werr error
+	badEnt := nondetBool("badentity")
 	ws.Route(ws.GET("/a").Produces(produces...).To(func(req *Request, resp *Response) {
 		ran = true
 		// the same decision taken twice must agree (independent map iteration orders)
@@ -168,7 +169,7 @@ func H_C05(prodCfg, mode, capN, part, nparts int) {
 			EnableTracing(false)
 			verifAssert(ok1 == ok3 && w1 == w3, "C05: trace logging changes the representation chosen for the same request")
 		}
-		werr = resp.WriteEntity(vEntity{A: 1, B: "x"})
+		werr = resp.WriteEntity(vPickEntity(badEnt))
 	}))
 	c.Add(ws)
 	q := vReq{method: "GET", path: "/t/a", accept: accept}
@@ -202,24 +203,127 @@ func H_C05(prodCfg, mode, capN, part, nparts int) {
 	}
 	verifAssert(inProd, "C05: response Content-Type is not a media type the route produces with a registered writer")
 	// the reference choice
+	def, choice, swap := refEntityChoice(produces, accept, maxParams)
+	verifCoverIf("definite", vAnd(def, choice >= 0))
+	verifCoverIf("q-decides", vAnd(def, swap))
+	for i, p := range produces {
+		verifAssert(vImp(vAnd(def, choice == i), ct1 == p), "C05: response Content-Type is not the producible type the Accept header ranks highest")
+	}
+}
+
+// refEntityChoice: the index into produces the statement selects for an Accept header of at most two ranges
+// (def: the statement decides; swap: the q-values reverse the header order).
+func refEntityChoice(produces []string, accept string, maxParams int) (def bool, choice int, swap bool) {
+	ci := strings.Index(accept, ",")
+	r0 := vIteStr(ci != -1, vSubstr(accept, 0, ci), accept)
+	r1 := vSubstr(accept, ci+1, len(accept))
 	m0, q0, d0 := refParseRange(r0, maxParams)
 	m1, q1, d1 := refParseRange(r1, maxParams)
 	has1 := ci != -1
-	def := vAnd(d0, vOr(!has1, d1))
+	def = vAnd(d0, vOr(!has1, d1))
 	if DefaultResponseMimeType != "" {
 		// with a configured default the statement does not say what an absent Accept header selects
 		def = vAnd(def, len(accept) != 0)
 	}
 	c0 := refRangeChoice(produces, m0)
 	c1 := vIte(has1, refRangeChoice(produces, m1), -1)
-	swap := vAnd(has1, q1 > q0)
+	swap = vAnd(has1, q1 > q0)
 	first := vIte(swap, c1, c0)
 	second := vIte(swap, c0, c1)
-	choice := vIte(first >= 0, first, second)
+	choice = vIte(first >= 0, first, second)
 	choice = vIte(len(accept) == 0, refRangeChoice(produces, "*/*"), choice)
+	return
+}
+
+// H_C05_seq: the representation a request gets does not depend on the requests served before it. Two requests
+// with the same symbolic Accept header go to routes with different Produces lists; the second answer is judged.
+// cfg 0: GET /t/a produces [a/J], GET /t/b produces [a/x, a/J]
+// cfg 1: two POST routes on one path, told apart by Consumes: a/J -> produces [a/J], a/x -> produces [a/x, a/J]
+// cfg 2: as 0 with the built-in media types and a header made of their names
+// cfg 3: as 0 with a first Produces entry that has no registered writer
+func H_C05_seq(cfg, capN int) {
+	vRegister(cfg == 2)
+	J, X := "a/J", "a/x"
+	if cfg == 2 {
+		J, X = MIME_JSON, MIME_XML
+	}
+	var accept string
+	if cfg == 2 {
+		menu := []string{X, J, "*/*", "text/html"}
+		accept = menu[nondetChoice("m0", 4)] + ";q=0." + nondetFixed("q0", 1) + "," + menu[nondetChoice("m1", 4)]
+		if capN > 0 {
+			accept += nondetString("tail", capN)
+		}
+	} else {
+		accept = nondetString("accept", capN)
+	}
+	verifAssume(strings.Count(accept, ",") <= 1)
+	ci := strings.Index(accept, ",")
+	r0 := vIteStr(ci != -1, vSubstr(accept, 0, ci), accept)
+	r1 := vSubstr(accept, ci+1, len(accept))
+	verifAssume(strings.Count(r0, ";") <= 1)
+	verifAssume(vOr(ci == -1, strings.Count(r1, ";") <= 1))
+	prods := [][]string{{J}, {X, J}}
+	if cfg == 3 {
+		// a first entry nobody can write: the Accept header may name it (the router admits the request) and
+		// something that merely resembles a registered type
+		prods = [][]string{{"u/u", J}, {"u/u", X, J}}
+	}
+	c := NewContainer()
+	ws := new(WebService)
+	ws.Path("/t")
+	ran := -1
+	for i := range prods {
+		i := i
+		var b *RouteBuilder
+		if cfg == 1 {
+			b = ws.POST("/c").Consumes([]string{J, X}[i])
+		} else {
+			b = ws.GET([]string{"/a", "/b"}[i])
+		}
+		ws.Route(b.Produces(prods[i]...).To(func(req *Request, resp *Response) {
+			ran = i
+			resp.WriteEntity(vEntity{A: 1, B: "x"})
+		}))
+	}
+	c.Add(ws)
+	mk := func(i int) vReq {
+		if cfg == 1 {
+			return vReq{method: "POST", path: "/t/c", ctype: []string{J, X}[i], accept: accept}
+		}
+		return vReq{method: "GET", path: []string{"/t/a", "/t/b"}[i], accept: accept}
+	}
+	first := nondetChoice("first", 2)
+	second := nondetChoice("second", 2)
+	rec1 := vNewRec()
+	c.Dispatch(rec1, mk(first).http())
+	ran = -1
+	rec := vNewRec()
+	c.Dispatch(rec, mk(second).http())
+	if first == second {
+		verifCover("repeated")
+		verifAssert(rec1.code() == rec.code() && vHdr1(rec1, "Content-Type") == vHdr1(rec, "Content-Type"), "C05: the same request does not always get the same representation")
+	}
+	if ran == -1 {
+		verifCover("not-admitted")
+		return
+	}
+	verifCover("admitted")
+	verifAssert(ran == second, "C05: the request was served by another route")
+	ct := vHdr1(rec, "Content-Type")
+	verifObserveStr("content-type", ct)
+	verifObserveInt("status", rec.code())
+	produces := prods[second]
+	inProd := false
+	for _, p := range produces {
+		if vContains(vRegistered, p) {
+			inProd = vOr(inProd, ct == p)
+		}
+	}
+	verifAssert(vOr(inProd, rec.code() == 406), "C05: after an earlier request, the response Content-Type is not a media type the route produces")
+	def, choice, _ := refEntityChoice(produces, accept, 1)
 	verifCoverIf("definite", vAnd(def, choice >= 0))
-	verifCoverIf("q-decides", vAnd(def, swap))
 	for i, p := range produces {
-		verifAssert(vImp(vAnd(def, choice == i), ct1 == p), "C05: response Content-Type is not the producible type the Accept header ranks highest")
+		verifAssert(vImp(vAnd(def, choice == i), ct == p), "C05: after an earlier request, the response Content-Type is not the producible type the Accept header ranks highest")
 	}
 }
